@@ -18,6 +18,9 @@ EXPLANATION = (
     "without gap or overlap, and the DetailedStats fields are wired to those counts; R3 aggregation exhaustiveness -- every attribute initialised in PhasingStats.__init__ "
     "is combined in __iadd__, and the per-chromosome stats reach the total on every path; R4 block list -- one line per key of blocks with leftmost+1, rightmost+1, len; R5 -- the worklist of get_nonoverlapping_blocks is re-sorted with its defining key after every insertion (necessary for splitting interleaved blocks into disjoint pieces)."
 )
+EXPLANATION += (
+    " " + 'R2 also: phased_snvs sums count_snvs() over self.blocks with the same size filter as block_sizes (not over the split pieces) and is wired to DetailedStats.phased_snvs; R4 also: no function of stats.py uses a block / phase-set id as a bare condition (phase set 0 exists).'
+)
 NOT_DECIDED = "The non-overlapping split of interleaved blocks and NG50 arithmetic (value-level)."
 ASSUMPTIONS = ["Genotype::is_homozygous() returns false for the missing genotype (src/genotype.cpp, checked by C12.R1's C++ probe)"]
 
@@ -117,8 +120,17 @@ def r2(ctx):
     vals = [(ev(preds["block_sizes"][0], preds["block_sizes"][1], k), ev(preds["n_singletons"][0], preds["n_singletons"][1], k)) for k in range(1, 8)]
     ok = all(a is not None and b is not None and (a != b) for a, b in vals) and vals[0] == (False, True) and all(v == (True, False) for v in vals[1:])
     ctx.ob(gd.qual, "phased-singleton-partition", ok, gd.loc(), "blocks are split by `%s` / `%s`: every non-empty block is exactly one of phased block, singleton" % (u(preds["block_sizes"][0]), u(preds["n_singletons"][0])) if ok else "the filters `%s` / `%s` do not partition block sizes 1..7 into singleton / phased" % (u(preds["block_sizes"][0]), u(preds["n_singletons"][0])))
+    # counts are taken over the real phase sets (self.blocks); only lengths use the split pieces
+    ps = util.single_def(gd.node, "phased_snvs")
+    ok = False
+    if ps is not None and isinstance(ps, ast.Call) and u(ps.func) == "sum" and ps.args and isinstance(ps.args[0], (ast.GeneratorExp, ast.ListComp)) and len(ps.args[0].generators) == 1:
+        g = ps.args[0].generators[0]
+        var = u(g.target)
+        same_filter = len(g.ifs) == 1 and u(g.ifs[0]).replace(var, "_") == u(preds["block_sizes"][0]).replace(preds["block_sizes"][1], "_")
+        ok = u(g.iter) == "self.blocks" and same_filter and u(ps.args[0].elt) == "%s.count_snvs()" % var
+    ctx.ob(gd.qual, "phased-snvs-over-the-phase-sets", ok, gd.loc(), "phased_snvs sums count_snvs() over the same blocks (self.blocks, same size filter) that make up `phased`" if ok else "phased_snvs is %s: it is not counted over the phase sets that `phased` counts (self.blocks with `%s`)" % (u(ps)[:90] if ps is not None else "?", u(preds["block_sizes"][0])))
     # wiring of the DetailedStats fields
-    want = {"phased": "sum(block_sizes)", "unphased": "self.unphased", "singletons": "n_singletons", "heterozygous_variants": "self.heterozygous_variants", "variants": "self.variants", "blocks": "len(block_sizes)", "variant_per_block_sum": "sum(block_sizes)"}
+    want = {"phased": "sum(block_sizes)", "unphased": "self.unphased", "singletons": "n_singletons", "heterozygous_variants": "self.heterozygous_variants", "variants": "self.variants", "blocks": "len(block_sizes)", "variant_per_block_sum": "sum(block_sizes)", "phased_snvs": "phased_snvs", "heterozygous_snvs": "self.heterozygous_snvs"}
     ctors = [c for c in ctx.prog.calls_in(gd.node) if isinstance(c.func, ast.Name) and c.func.id == "DetailedStats"]
     ctx.require(len(ctors) >= 1, "DetailedStats(...) construction not found")
     for c in ctors:
@@ -126,7 +138,7 @@ def r2(ctx):
         ga = guard_atoms(ctx.cfg(gd), ctx.cfg(gd).node_containing(c))
         empty_branch = ("block_sizes", False) in ga
         for f, expr in want.items():
-            if empty_branch and f in ("phased", "blocks", "variant_per_block_sum"):
+            if empty_branch and f in ("phased", "blocks", "variant_per_block_sum", "phased_snvs"):
                 # no non-singleton block: the dataclass default 0 is the right value
                 ok = f not in kw or kw[f] in (expr, "0")
             else:
@@ -227,6 +239,15 @@ def r4(ctx):
         ctx.ob(fi.qual, "column:%s" % k, ok, fi.loc(prints[0]), "block list prints %s" % w if ok else "block list does not print %s (columns: %s)" % (w, args))
     ok = any(k.arg == "file" and u(k.value) == params[0] for k in prints[0].keywords)
     ctx.ob(fi.qual, "printed-to-block-list-file", ok, fi.loc(prints[0]), "the line goes to the block list file" if ok else "the line is not printed to the block list file")
+    # phase set 0 is a phase set: ids are compared with None, never used as booleans
+    n_fn = 0
+    for q, f2 in sorted(ctx.prog.functions.items()):
+        if not q.startswith(MOD + "."):
+            continue
+        n_fn += 1
+        for node, txt in common.id_truthiness_tests(f2.node):
+            ctx.ob(f2.qual, "phase-set-id-not-used-as-boolean:%s" % txt, False, f2.loc(node), "`%s` is tested for truthiness: phase set 0 ('|'-phased calls without PS) is treated as 'no phase set', its extent is not reported" % txt)
+    ctx.ob(MOD, "phase-set-id-not-used-as-boolean", True, "whatshap/cli/stats.py", "%d functions of stats.py scanned: block / phase-set ids only occur in comparisons (is None, ==, !=), never as a bare condition" % n_fn)
     # caller passes the map that get_phase_blocks returned
     run = ctx.func(MOD + ".run_stats")
     ok = False
